@@ -259,6 +259,11 @@ func driverMain(args []string) int {
 				inconclusive = append(inconclusive, fmt.Sprintf("shard %d died before its first case: %s: %s", sr.shard, what, firstLines(tail, 6)))
 				continue
 			}
+			if class == "unrecovered-panic" && !strings.Contains(tail, "cloudflare/pat-go") {
+				// the panicking goroutine never was inside pat-go: a bug of the monitor itself
+				inconclusive = append(inconclusive, fmt.Sprintf("shard %d: the monitor itself panicked in case %d: %s", sr.shard, idx, firstLines(tail, 8)))
+				continue
+			}
 			if killedByUs && !p.StallIsViolation {
 				inconclusive = append(inconclusive, fmt.Sprintf("shard %d stalled in case %d and was stopped by the watchdog", sr.shard, idx))
 			} else {
